@@ -20,5 +20,7 @@ for c in "$@"; do
   for r in $(grep '^VIOLATION' $D/check_$c.log | sed 's/.*replay=\([^ ]*\).*/\1/' | head -2); do cp $r $D/ 2>/dev/null; done
 done
 git -C /repo checkout -- .
+# the evidence written while the patch was applied describes the patched tree: restore the committed files
+git -C /verif checkout -- evidence/ 2>/dev/null
 git -C /repo status --short | grep -v '^??'
 echo "undone"
